@@ -1,24 +1,18 @@
-Base/Res.vo Base/Res.glob Base/Res.v.beautified Base/Res.required_vo: Base/Res.v 
-Base/Res.vio: Base/Res.v 
-Base/Res.vos Base/Res.vok Base/Res.required_vos: Base/Res.v 
-Base/Octets.vo Base/Octets.glob Base/Octets.v.beautified Base/Octets.required_vo: Base/Octets.v Base/Res.vo
-Base/Octets.vio: Base/Octets.v Base/Res.vio
-Base/Octets.vos Base/Octets.vok Base/Octets.required_vos: Base/Octets.v Base/Res.vos
 Base/ListX.vo Base/ListX.glob Base/ListX.v.beautified Base/ListX.required_vo: Base/ListX.v Base/Res.vo Base/Octets.vo
 Base/ListX.vio: Base/ListX.v Base/Res.vio Base/Octets.vio
 Base/ListX.vos Base/ListX.vok Base/ListX.required_vos: Base/ListX.v Base/Res.vos Base/Octets.vos
+Base/Octets.vo Base/Octets.glob Base/Octets.v.beautified Base/Octets.required_vo: Base/Octets.v Base/Res.vo
+Base/Octets.vio: Base/Octets.v Base/Res.vio
+Base/Octets.vos Base/Octets.vok Base/Octets.required_vos: Base/Octets.v Base/Res.vos
+Base/Res.vo Base/Res.glob Base/Res.v.beautified Base/Res.required_vo: Base/Res.v 
+Base/Res.vio: Base/Res.v 
+Base/Res.vos Base/Res.vok Base/Res.required_vos: Base/Res.v 
 Gen/Consts.vo Gen/Consts.glob Gen/Consts.v.beautified Gen/Consts.required_vo: Gen/Consts.v 
 Gen/Consts.vio: Gen/Consts.v 
 Gen/Consts.vos Gen/Consts.vok Gen/Consts.required_vos: Gen/Consts.v 
 Model/NameWire.vo Model/NameWire.glob Model/NameWire.v.beautified Model/NameWire.required_vo: Model/NameWire.v Base/Res.vo Base/Octets.vo Gen/Consts.vo
 Model/NameWire.vio: Model/NameWire.v Base/Res.vio Base/Octets.vio Gen/Consts.vio
 Model/NameWire.vos Model/NameWire.vok Model/NameWire.required_vos: Model/NameWire.v Base/Res.vos Base/Octets.vos Gen/Consts.vos
-Spec/NameWireS.vo Spec/NameWireS.glob Spec/NameWireS.v.beautified Spec/NameWireS.required_vo: Spec/NameWireS.v Base/Res.vo Base/Octets.vo
-Spec/NameWireS.vio: Spec/NameWireS.v Base/Res.vio Base/Octets.vio
-Spec/NameWireS.vos Spec/NameWireS.vok Spec/NameWireS.required_vos: Spec/NameWireS.v Base/Res.vos Base/Octets.vos
-Spec/NameRepr.vo Spec/NameRepr.glob Spec/NameRepr.v.beautified Spec/NameRepr.required_vo: Spec/NameRepr.v Model/NameWire.vo Spec/NameWireS.vo
-Spec/NameRepr.vio: Spec/NameRepr.v Model/NameWire.vio Spec/NameWireS.vio
-Spec/NameRepr.vos Spec/NameRepr.vok Spec/NameRepr.required_vos: Spec/NameRepr.v Model/NameWire.vos Spec/NameWireS.vos
 Proofs/NameWireP.vo Proofs/NameWireP.glob Proofs/NameWireP.v.beautified Proofs/NameWireP.required_vo: Proofs/NameWireP.v Base/ListX.vo Model/NameWire.vo Spec/NameWireS.vo Spec/NameRepr.vo
 Proofs/NameWireP.vio: Proofs/NameWireP.v Base/ListX.vio Model/NameWire.vio Spec/NameWireS.vio Spec/NameRepr.vio
 Proofs/NameWireP.vos Proofs/NameWireP.vok Proofs/NameWireP.required_vos: Proofs/NameWireP.v Base/ListX.vos Model/NameWire.vos Spec/NameWireS.vos Spec/NameRepr.vos
@@ -28,3 +22,9 @@ Proofs/NameWireSP.vos Proofs/NameWireSP.vok Proofs/NameWireSP.required_vos: Proo
 Props/C14.vo Props/C14.glob Props/C14.v.beautified Props/C14.required_vo: Props/C14.v Base/ListX.vo Model/NameWire.vo Spec/NameWireS.vo Spec/NameRepr.vo Proofs/NameWireP.vo Proofs/NameWireSP.vo
 Props/C14.vio: Props/C14.v Base/ListX.vio Model/NameWire.vio Spec/NameWireS.vio Spec/NameRepr.vio Proofs/NameWireP.vio Proofs/NameWireSP.vio
 Props/C14.vos Props/C14.vok Props/C14.required_vos: Props/C14.v Base/ListX.vos Model/NameWire.vos Spec/NameWireS.vos Spec/NameRepr.vos Proofs/NameWireP.vos Proofs/NameWireSP.vos
+Spec/NameRepr.vo Spec/NameRepr.glob Spec/NameRepr.v.beautified Spec/NameRepr.required_vo: Spec/NameRepr.v Model/NameWire.vo Spec/NameWireS.vo
+Spec/NameRepr.vio: Spec/NameRepr.v Model/NameWire.vio Spec/NameWireS.vio
+Spec/NameRepr.vos Spec/NameRepr.vok Spec/NameRepr.required_vos: Spec/NameRepr.v Model/NameWire.vos Spec/NameWireS.vos
+Spec/NameWireS.vo Spec/NameWireS.glob Spec/NameWireS.v.beautified Spec/NameWireS.required_vo: Spec/NameWireS.v Base/Res.vo Base/Octets.vo
+Spec/NameWireS.vio: Spec/NameWireS.v Base/Res.vio Base/Octets.vio
+Spec/NameWireS.vos Spec/NameWireS.vok Spec/NameWireS.required_vos: Spec/NameWireS.v Base/Res.vos Base/Octets.vos
